@@ -648,14 +648,25 @@ class Database:
     def writeToDB(self, reactor, statePointName=None):
         assert self.h5db is not None, "Database must be open before writing."
         # _createLayout is recursive
+        groupName = getH5GroupName(
+            reactor.p.cycle, reactor.p.timeNode, statePointName
+        )
+        groupExisted = groupName in self.h5db
         h5group = self.getH5Group(reactor, statePointName)
         runLog.info("Writing to database for statepoint: {}".format(h5group.name))
-        layout = Layout((self.versionMajor, self.versionMinor), comp=reactor)
-        layout.writeToDB(h5group)
-        groupedComps = layout.groupedComps
+        try:
+            layout = Layout((self.versionMajor, self.versionMinor), comp=reactor)
+            layout.writeToDB(h5group)
+            groupedComps = layout.groupedComps
 
-        for comps in groupedComps.values():
-            self._writeParams(h5group, comps)
+            for comps in groupedComps.values():
+                self._writeParams(h5group, comps)
+        except Exception:
+            # do not leave a half-written time node behind: it would be listed and could
+            # neither be loaded nor be written again
+            if not groupExisted:
+                del self.h5db[groupName]
+            raise
 
     def syncToSharedFolder(self):
         """
